@@ -32,7 +32,9 @@ def CritPc.srcGone : CritPc → Bool
   | .pPttl none => true
   | .pEntryNone => true
   | .uFast (.dump false) => true
-  | .uSyncGot _ => true
+  | .uSyncGot .ok => true
+  | .uSyncGot .finished => true
+  | .uSyncGot .taskNotFound => true
   | _ => false
 
 def ScanPc.srcGone : ScanPc → Bool
@@ -40,8 +42,11 @@ def ScanPc.srcGone : ScanPc → Bool
   | .fin _ => true
   | _ => false
 
+/-- UMSYNC answered with a reply that lets the command through (anything but an error) -/
 def CritPc.isSyncGot : CritPc → Bool
-  | .uSyncGot _ => true
+  | .uSyncGot .ok => true
+  | .uSyncGot .finished => true
+  | .uSyncGot .taskNotFound => true
   | _ => false
 
 def CritPc.isPull : CritPc → Bool
@@ -183,6 +188,7 @@ theorem opOk_frame {s s' : Sys} {o : Op} (h : OpOk s o)
 
 theorem isSyncGot_srcGone (pc : CritPc) : pc.isSyncGot = true → pc.srcGone = true := by
   cases pc <;> simp [CritPc.isSyncGot, CritPc.srcGone]
+  rename_i r; cases r <;> simp
 
 /-- the automation used by the step lemmas -/
 macro "mig_grind" : tactic =>
